@@ -202,6 +202,8 @@ tagspec(struct scope *s)
 			error(&tok.loc, "redeclaration of tag '%s' with different kind", tag);
 	} else {
 		if (kind == TYPEENUM) {
+			if (!et && tok.kind != TLBRACE)
+				error(&tok.loc, "enum '%s' is used before it is defined and has no fixed underlying type", tag);
 			t = mktype(kind, PROPSCALAR|PROPARITH|PROPREAL|PROPINT);
 			t->base = et;
 		} else {
